@@ -3,7 +3,7 @@ from ..rules import delivery
 from .common import declare
 
 RULES = ['TIMEDELTA-TOTAL', 'SWAP-ATOMIC', 'FLUSH-RESETS', 'ARM-CANCEL', 'APPEND-THEN-TEST', 'ARM-ON-FIRST', 'SERIAL-DRAIN', 'FIFO-END', 'EMIT-SIG',
-         'SINGLE-CONSUMER', 'TICK-PERIOD']
+         'SINGLE-CONSUMER', 'TICK-PERIOD', 'ELEMENT-MEMBERSHIP']
 FLOORS = {'SWAP-ATOMIC': 6, 'ARM-CANCEL': 1, 'APPEND-THEN-TEST': 1, 'ARM-ON-FIRST': 1, 'SERIAL-DRAIN': 2, 'FIFO-END': 5,
           'EMIT-SIG': 5, 'SINGLE-CONSUMER': 2, 'TICK-PERIOD': 4}
 NODES = ('timed_window', 'timed_window_unique', 'partition')
@@ -38,6 +38,7 @@ def run(ctx, R):
     R.run(delivery.check_fifo_end, ctx, R, classes)
     R.run(delivery.check_emit_sig, ctx, R, classes)
     R.run(delivery.check_single_consumer, ctx, R, classes)
+    R.run(delivery.check_element_membership, ctx, R, classes + [M.cls('streamz.core', 'partition_unique')])
     R.run(delivery.check_tick_period, ctx, R, [c for c in classes if c.name != 'partition'])
 
 
